@@ -204,6 +204,8 @@ pub fn collision_scripts() -> Vec<(&'static str, Vec<Op>)> {
         // a partly received multi-fragment packet is passed over by the window and its slot is reused one window later (windows 2, 4, 8)
         ("frag-slot-reuse", vec![send(0, 0, 0, Unreliable, 3000), send(1, 0, 1, Reliable, 10), send(1, 0, 0, Unreliable, 11), send(2, 0, 1, Reliable, 12), send(3, 0, 0, Reliable, 3001), send(4, 0, 0, Unreliable, 2000), send(4, 0, 1, Persistent, 4000), send(5, 0, 0, Unreliable, 13), send(6, 0, 1, Reliable, 2001)]),
         ("frag-slot-reuse-ts", vec![send(0, 0, 0, TimeSensitive, 4000), send(0, 0, 0, Unreliable, 2900), send(2, 0, 0, Unreliable, 2901), send(3, 0, 1, Reliable, 20), send(4, 0, 0, Reliable, 4001), send(5, 0, 1, Unreliable, 2902), send(6, 0, 0, Reliable, 21), send(7, 0, 1, Reliable, 2903)]),
+        // every packet fills a frame of its own, all leave in one flush on a warm connection, modes alternate
+        ("full-frames-mixed-modes", vec![send(0, 0, 0, Reliable, 1448), send(0, 0, 1, Unreliable, 1448), send(0, 0, 0, Persistent, 1448), send(0, 0, 1, TimeSensitive, 1447), send(0, 0, 2, Reliable, 1446), send(1, 0, 1, Unreliable, 9)]),
         ("burst-8-unreliable-then-reliable", (0..8).map(|i| send(0, 0, 0, Unreliable, 100 + i)).chain(std::iter::once(send(1, 0, 0, Reliable, 99))).collect()),
     ]
 }
